@@ -13,6 +13,7 @@ import (
 	"fmt"
 	"sort"
 	"strings"
+	"time"
 
 	"github.com/DistCompiler/pgo/distsys"
 	"github.com/DistCompiler/pgo/distsys/tla"
@@ -162,4 +163,21 @@ func VerifCRDTShutdown(r distsys.ArchetypeResource) {
 // RPC service that forwards every call to this receiver's unchanged ReceiveValue.
 func VerifCRDTReceiver(r distsys.ArchetypeResource) *CRDTRPCReceiver {
 	return &CRDTRPCReceiver{crdt: r.(*crdt)}
+}
+
+// VerifLWWShift returns a copy of an LWWSet in which every time stamp is moved by d.  A replica whose
+// clock is d ahead is emulated as shift(+d) . Write . shift(-d): Write itself (and its time.Now()) is
+// the unchanged code.
+func VerifLWWShift(v CRDTValue, d time.Duration) CRDTValue {
+	s := v.(LWWSet)
+	shift := func(m *immutable.Map[tla.Value, time.Time]) *immutable.Map[tla.Value, time.Time] {
+		b := immutable.NewMapBuilder[tla.Value, time.Time](tla.ValueHasher{})
+		it := m.Iterator()
+		for !it.Done() {
+			k, t, _ := it.Next()
+			b.Set(k, t.Add(d))
+		}
+		return b.Map()
+	}
+	return LWWSet{addSet: shift(s.addSet), remSet: shift(s.remSet)}
 }
